@@ -60,7 +60,7 @@ pub open spec fn share(part: real, whole: real) -> real { if whole > 0real { par
 
 // ---- classification of the components of one carrier, exactly the four-way split of the property:
 // production (by source) / EPB use (by service) / cogeneration input / non-EPB use
-pub enum Sel { Epus, EpusSrv(Service), Nepus, Cgn, Prod(ProdSource) }
+pub enum Sel { Epus, EpusSrv(Service), Nepus, Cgn, Prod(ProdSource), CgnFuel(Carrier) }
 pub open spec fn sel(k: Sel, e: Energy) -> bool {
     match k {
         Sel::Prod(s) => e is Prod && e->Prod_0.source == s,
@@ -68,6 +68,7 @@ pub open spec fn sel(k: Sel, e: Energy) -> bool {
         Sel::EpusSrv(s) => !(e is Prod) && e_is_epb_use(e) && e_service(e) == s,
         Sel::Cgn => !(e is Prod) && !e_is_epb_use(e) && e_is_cogen_use(e),
         Sel::Nepus => !(e is Prod) && !e_is_epb_use(e) && !e_is_cogen_use(e),
+        Sel::CgnFuel(c) => e is Used && e_is_cogen_use(e) && e->Used_0.carrier == c,
     }
 }
 /// Σ over the selected components of their value at step i
